@@ -340,6 +340,14 @@ def _hashmap(vm, m, c, args):
             for i, p in enumerate(pairs):
                 if p.f[0].s == k: return ret(m, SOME(Ref(r.cell, r.path + (('f', 0), ('i', i), ('f', 1)))))
             return ret(m, NONE())
+        if n == 'remove':
+            pairs = _hm_pairs(vm, m, r); k = _key(vm, m, args[1])
+            for i, p in enumerate(pairs):
+                if p.f[0].s == k:
+                    pairs.pop(i); vm.write_at(m, r.cell, list(r.path), Struct((Seq(pairs), hm_salt(deref_val(vm, m, r))), 'HashMap')); return ret(m, SOME(p.f[1]))
+            return ret(m, NONE())
+        if n == 'is_empty': return ret(m, len(_hm_pairs(vm, m, r)) == 0)
+        if n == 'clear': vm.write_at(m, r.cell, list(r.path), Struct((Seq(()), hm_salt(deref_val(vm, m, r))), 'HashMap')); return ret(m, UNIT)
         if n == 'contains_key':
             return ret(m, any(p.f[0].s == _key(vm, m, args[1]) for p in _hm_pairs(vm, m, r)))
         if n == 'len': return ret(m, len(_hm_pairs(vm, m, r)))
@@ -489,6 +497,7 @@ def _vec(vm, m, c, args):
             return ret(m, Struct((SliceRef(s.cell, s.path, s.start, k), SliceRef(s.cell, s.path, s.start + k, s.count - k))))
         if n in ('get', 'get_mut'):
             refs = slice_refs(vm, m, args[0]); i = args[1]
+            if not isinstance(i, int) and not is_sym(i): return NotImplemented     # range argument: stdmodels
             if is_sym(i): raise Unmodelled('symbolic slice get')
             return ret(m, SOME(refs[i]) if i < len(refs) else NONE())
     return NotImplemented
